@@ -230,13 +230,13 @@ def generate(case):
     return A.generate_square(case["widths"][0], type=SQ.SquareMode(case["mode"]), big_endian=be)
 
 
-def concrete_mismatch(kind, mode, widths, tries=3000, seed=1):
+def concrete_mismatch(kind, mode, widths, tries=3000, seed=1, big_endian=False):
     """Concrete search for a wrong product at true width (used to confirm a compositional failure)."""
     import random as _r
 
     rnd = _r.Random(seed)
     if kind == "square":
-        c = A.generate_square(widths[0], type=SQ.SquareMode(mode))
+        c = A.generate_square(widths[0], type=SQ.SquareMode(mode), big_endian=big_endian)
     elif mode == "KARATSUBA_PLAIN":
         from cirbo.core.circuit import Circuit
 
@@ -254,9 +254,10 @@ def concrete_mismatch(kind, mode, widths, tries=3000, seed=1):
         pats.append(x)
     pats += [[rnd.random() < pr for _ in range(total)] for pr in (0.5, 0.9, 0.1, 0.75) for _ in range(tries // 4)]
     for x in pats:
-        a = sum(int(v) << i for i, v in enumerate(x[:n]))
+        a = sum(int(v) << i for i, v in enumerate(x[:n][::-1] if big_endian else x[:n]))
         b = sum(int(v) << i for i, v in enumerate(x[n:])) if len(widths) > 1 else a
-        got = sum(int(bool(v)) << i for i, v in enumerate(c.evaluate(list(x))))
+        res = list(c.evaluate(list(x)))
+        got = sum(int(bool(v)) << i for i, v in enumerate(res[::-1] if big_endian else res))
         if got != a * b:
             return x, a, b, got
     return None
@@ -266,10 +267,12 @@ def compositional_unit(p, item, tier, seed):
     from checks import c08_comp
 
     kind, mode, widths, max_leaf_bits, leaf_to = item
+    be = kind == "square-BE"
+    kind = "square" if be else kind
     if kind == "mul":
         probs, stats = c08_comp.karatsuba_true_width(p, mode, widths[0], widths[1], max_leaf_bits=max_leaf_bits, leaf_timeout_ms=leaf_to)
     else:
-        probs, stats = c08_comp.square_true_width(p, widths[0])
+        probs, stats = c08_comp.square_true_width(p, widths[0], big_endian=be)
     p.case(("c08-comp", kind, mode, tuple(widths)), sample=f"compositional true-width {kind} {mode} {widths}: {stats}")
     for k, v in stats.items():
         if isinstance(v, int):
@@ -279,15 +282,15 @@ def compositional_unit(p, item, tier, seed):
         if "inconclusive" in x:
             p.inconclusive.append(x)
     if hard:
-        mm = concrete_mismatch(kind, mode, widths)
+        mm = concrete_mismatch(kind, mode, widths, big_endian=be)
         if mm is None:
             # the compositional argument failed but no concrete wrong product was found: not reported as a violation
             p.inconclusive.append(f"compositional check of {kind} {mode} {widths} failed ({hard[0]}) but 3000 targeted concrete operand pairs multiply correctly")
             p.queries["unknown"] += 1
             return
         x, a, b, got = mm
-        p.violation(f"mul:true-width:{kind}:{mode}", f"{kind} {mode} {widths}: {hard[:2]}; concrete witness {a} * {b} gives {got}",
-                    REPLAY_PRELUDE + "from checks import c08\n" + f"mm=c08.concrete_mismatch({kind!r}, {mode!r}, {widths!r})\nprint(mm and mm[1:])\nsys.exit(1 if mm else 0)\n")
+        p.violation(f"mul:true-width:{kind}:{mode}{':BE' if be else ''}", f"{kind} {mode} {widths}: {hard[:2]}; concrete witness {a} * {b} gives {got}",
+                    REPLAY_PRELUDE + "from checks import c08\n" + f"mm=c08.concrete_mismatch({kind!r}, {mode!r}, {widths!r}, big_endian={be!r})\nprint(mm and mm[1:])\nsys.exit(1 if mm else 0)\n")
 
 
 def make_cases(tier, rnd):
@@ -376,7 +379,7 @@ def run(rep, tier, seed, only=None):
     if only is None or "comp" in only:
         thorough = tier == "thorough"
         comp = [("mul", "KARATSUBA", [18, 18]), ("mul", "KARATSUBA_PLAIN", [18, 18]), ("mul", "KARATSUBA", [20, 20]), ("mul", "KARATSUBA", [21, 21]),
-                ("mul", "KARATSUBA_PLAIN", [23, 17]), ("square", "DEFAULT", [48]), ("square", "DEFAULT", [50])]
+                ("mul", "KARATSUBA_PLAIN", [23, 17]), ("square", "DEFAULT", [48]), ("square", "DEFAULT", [50]), ("square-BE", "DEFAULT", [48])]
         if thorough:
             comp += [("mul", md, [n, m]) for md in ("KARATSUBA", "KARATSUBA_PLAIN") for n, m in ((19 + k, 19 + k) for k in range(1, 8))]
             comp += [("mul", "KARATSUBA", [24, 15]), ("mul", "KARATSUBA", [14, 25]), ("mul", "KARATSUBA", [36, 36]), ("mul", "KARATSUBA", [40, 40]), ("mul", "KARATSUBA_PLAIN", [42, 43]),
